@@ -33,6 +33,8 @@ def gen_fa(rng, kind=None, max_states=5, max_symbols=3, max_trans=9, plain_symbo
         pool, valmode = ADVERSARIAL_STATES, rng.pick(["V", "str"])
     elif allow_int and r < 0.36:
         pool, valmode = INT_STATES, "int"
+    elif allow_int and adversarial and r < 0.42:
+        pool, valmode = MIXED_STATES, "mixed"
     else:
         pool, valmode = PLAIN_STATES, rng.pick(["V", "V", "str"])
     ns = rng.weighted([(1, 1), (2, 3), (3, 5), (4, 5), (5, 3)])
@@ -122,8 +124,15 @@ def fix_kind(c):
 # ---------------------------------------------------------------------------
 # descriptor -> user values
 
+MIXED_STATES = ["1", "1s", "2", "2s", "q", "3"]      # "1" -> int 1, "1s" -> str "1": distinct states that print alike
+
+
 def sval(case, name):
     m = case["valmode"]
+    if m == "mixed":
+        if name.endswith("s") and name[:-1].isdigit():
+            return name[:-1]
+        return int(name) if name.isdigit() else name
     if m == "V":
         return V(name, case["hash"]["S:" + name])
     if m == "int":
@@ -364,7 +373,7 @@ def shrink_fa(case):
     if case["symmode"] == "mixed":
         yield mk(symmode="str")
     # plain names
-    if case["valmode"] != "int" and any(s not in PLAIN_STATES for s in case["states"]):
+    if case["valmode"] not in ("int", "mixed") and any(s not in PLAIN_STATES for s in case["states"]):
         ren = {s: PLAIN_STATES[i] for i, s in enumerate(case["states"])} if len(case["states"]) <= len(PLAIN_STATES) else None
         if ren:
             h = case.get("hash")
@@ -373,6 +382,12 @@ def shrink_fa(case):
             yield mk(states=[ren[s] for s in case["states"]],
                      trans=[[ren[p], a, ren[q]] for p, a, q in case["trans"]],
                      starts=[ren[s] for s in case["starts"]], finals=[ren[s] for s in case["finals"]], hash=h)
+    if case["valmode"] == "mixed" and len(case["states"]) <= len(PLAIN_STATES):
+        ren = {s_: PLAIN_STATES[i] for i, s_ in enumerate(case["states"])}
+        yield mk(valmode="str", states=[ren[s_] for s_ in case["states"]],
+                 trans=[[ren[p], a, ren[q]] for p, a, q in case["trans"]],
+                 starts=[ren[s_] for s_ in case["starts"]], finals=[ren[s_] for s_ in case["finals"]],
+                 ghost_trans=None, ghost_final=None, eps_string_edge=None)
     if case["kind"] == "nfa":
         yield mk(kind="enfa")
     if case["kind"] == "dfa":
